@@ -108,6 +108,13 @@ package api
 //@ iface MdnsInterface.RequestMdnsEntries()
 
 //@ immutable ServiceDetails.ski
+// C18: the stored pairing-state detail of a service is only ever replaced by a detail object the caller has just
+// created, so an object that has been replaced is never stored again: the sequence of stored objects has no repeats
+//@ func (s *ServiceDetails).SetConnectionStateDetail(detail) [C18]
+//@   requires [C18] N4-fresh: fresh(detail)
+//@   ensures s.connectionStateDetail == detail
+//@   modifies s.connectionStateDetail
+//@ writers [C18] ServiceDetails.connectionStateDetail in (*api.ServiceDetails).SetConnectionStateDetail, api.NewServiceDetails
 //@ func NewServiceDetails(ski)
 //@   ensures result != nil && result.ski == norm(ski) && !result.trusted && result.shipID == "" && result.ipv4 == "" && !result.autoAccept
 //@   ensures result.connectionStateDetail != nil && result.connectionStateDetail.state == ConnectionStateNone && result.connectionStateDetail.error == nil
